@@ -20,11 +20,13 @@ LEVEL = 'exploration'
 RULE = ('Loop trees yielded by the real context reader for structurally valid documents (every selectable map round-robin, a '
         'segment-anchored loop id per run); on the first tree with more than two segments a seeded history of 1..40 calls '
         '(get_value, set_value, exists, count, select, first, add_segment, add_loop, add_node, delete_segment, delete_node, copy) '
-        'on root / copies / selected sub-loops with paths taken from the ground truth (LOOP/LOOP/SEG[qual]NN-N, ../) and invalid '
+        'on root / copies / selected sub-loops / segment handles with paths taken from the ground truth (LOOP/LOOP/SEG[qual]NN-N, ../), '
+        'edit bursts on one segment, add_loop through wrapper loops, and invalid paths (unknown ids, malformed, index 00 / -0) '
+        'and invalid '
         'ones. One evaluation = one API call. distinct_nontrivial = distinct (operation, target kind, path shape, outcome class) keys.')
 ASSUMPTIONS = [
     'refmodel.tree_model states path resolution, qualifier matching, insertion order, deletion and copy semantics',
-    'get_value on a path that is ambiguous between "first loop instance only" and "first match anywhere" is not compared (the statement leaves it open)',
+    'get_value / set_value address the first match in document order over every instance of the loops named, like first() and select() (an earlier version tolerated "first instance only"; that hid /repo defect 47b9024)',
     'values written never contain delimiters; invalid paths may answer None/False/0/[] or raise X12PathError, nothing else, and must leave the state unchanged',
 ]
 COMPONENTS = {
